@@ -91,6 +91,19 @@ Theorem C04_stale_checkpoint_refuted :
 Proof. exact stale_checkpoint_redoes_work. Qed.
 Print Assumptions C04_stale_checkpoint_refuted.
 
+(* checkpoint failure and retry (State.Unlock keeps the lock while it retries a failing Backend.Checkpoint): over every history
+   of steps whose checkpoint succeeds at once or is still failing, successful retries and crashes, the store always holds the
+   image of a state whose unlock completed - the current one or, while an unlock is retrying, the one before the step in
+   progress; never anything older, never a mixture; and a crash during the retry loses exactly that unacknowledged step *)
+Theorem C04_store_always_an_unlocked_state : forall c evs w, store_inv c w -> store_inv c (crun c w evs).
+Proof. exact store_always_an_unlocked_state. Qed.
+Print Assumptions C04_store_always_an_unlocked_state.
+
+Theorem C04_crash_during_retry : forall c w, store_inv c w -> c_dirty w = true ->
+  exists m0 e, c_mem w = step c m0 e /\ tasks (c_mem (cstep c w CCrash)) = tasks m0.
+Proof. exact crash_during_retry. Qed.
+Print Assumptions C04_crash_during_retry.
+
 (* the hypothesis is tied to the code twice: (T) over the step list of State.Unlock regenerated from overlord/state/state.go
    on every run: in Unlock the data is marshalled and the checkpoint written before the state lock is released (a deferred
    unlock, no other unlock before the last Checkpoint call, no goroutine); the closure returned by Unlocker - the second
@@ -117,3 +130,11 @@ Example C04_same_outcome_hypotheses_satisfiable :
   let s := ensure (mkCfg [] []) (init [(1, []); (2, [])]) in
   running s = [1; 2] /\ forallb (fun id => (status_of (tasks s) id =? 3) || (status_of (tasks s) id =? 7)) (running s) = true.
 Proof. vm_compute. split; reflexivity. Qed.
+
+(* non-vacuity: a step whose checkpoint is failing, another step that cannot happen meanwhile, a crash: the task is back in Do *)
+Example C04_retry_example :
+  let c := mkCfg [] [] in let w0 := mkC (init [(1, [])]) (tasks (init [(1, [])])) false in
+  let w1 := crun c w0 [CStep EEnsure false; CStep (EFinish 1) true] in
+  store_inv c w0 /\ c_dirty w1 = true /\ statuses (c_mem w1) = [(1, 3)] /\
+  statuses (c_mem (crun c w1 [CCrash])) = [(1, 2)] /\ statuses (c_mem (crun c w1 [CRetry; CStep (EFinish 1) true; CCrash])) = [(1, 4)].
+Proof. vm_compute. repeat split; try reflexivity. left. split; reflexivity. Qed.
